@@ -14,7 +14,7 @@ from streamflow.deployment.connector.base import extract_tar_stream
 from streamflow.deployment.stream import BaseStreamWrapper
 
 from sfv.framework import Ctx, Property
-from sfv.rt.shfake import Hang, run_alarm as run_forked
+from sfv.rt.shfake import in_scratch_cwd, Hang, run_alarm as run_forked
 from sfv.rt.trees import diff, diff_items, make_tree, snapshot
 
 
@@ -443,6 +443,7 @@ class C23(Property):
                 if d:
                     ctx.fail(f"writer:{reader}-extracts-different-tree", f"format {fmt}: {d[:3]}", replay)
 
+    @in_scratch_cwd
     def explore(self, ctx: Ctx) -> None:
         from sfv.rt.shfake import limit_failures
         limit_failures(ctx)
@@ -458,6 +459,7 @@ class C23(Property):
             if g != e:
                 ctx.disagree(f"model vs {m[0]}", f"{m[0]}: code {e[:300]!r}, Lean model {g[:300]!r}", m[1])
 
+    @in_scratch_cwd
     def replay(self, ctx: Ctx, data) -> None:
         r = data.get("replay") or {}
         self.gen, self.nx = 1, 0
